@@ -304,3 +304,31 @@ Example unrepaired_witness :
   exists c, run (st nat) nat (ev nat) (prog nat 0 false false false) sender receiver (MDone nat) (init nat 1 [7]) [0; 0; 0] = Some c /\
             returned nat (main_out nat c) = true /\ writes nat (writer_out nat c) = [].
 Proof. eexists. split; [vm_compute; reflexivity|]. split; reflexivity. Qed.
+
+(* ---------- prefixes at every moment ---------- *)
+Section More.
+  Variable V : Type.
+  Variables (lat : nat) (wait sync0 : bool).
+  (* at every moment of every execution (not only at the end): what main has passed through is a prefix of
+     the input, and what the writer has written is a prefix of what has been passed through *)
+  Theorem prefixes_always cap0 xs c : 1 <= cap0 ->
+    reachable _ _ _ (prog V lat true wait sync0) sender receiver (MDone V) (init V cap0 xs) c ->
+    exists ahead rest, passes V (main_out V c) = writes V (writer_out V c) ++ ahead /\
+                       xs = passes V (main_out V c) ++ rest.
+  Proof.
+    intros Hcap Hr.
+    destruct (inv_reachable V lat true wait sync0 cap0 xs c Hcap Hr) as (m & w & b0 & cl0 & cl1 & om & ow & -> & Hm & Hw & Hxs & Hps & _).
+    unfold main_out, writer_out. cbn [outs nth].
+    exists (inflight V w ++ b0 ++ handed V m).
+    assert (R : exists rest, pending V m = handed V m ++ rest).
+    { destruct m as [r|x r| | | | | | | |r]; try discriminate Hm; cbn [pending handed].
+      - exists r. reflexivity.
+      - exists r. reflexivity.
+      - exists []. reflexivity.
+      - exists []. reflexivity.
+      - exists []. reflexivity.
+      - exists r. reflexivity. }
+    destruct R as [rest R]. exists rest. split; [exact Hps|].
+    rewrite Hps, Hxs, R. rewrite <- !app_assoc. reflexivity.
+  Qed.
+End More.
